@@ -380,6 +380,7 @@ Qed.
 Definition makes_emulsion (o : op) : bool :=
   match o with
   | OCopy _ _ | OSlice _ _ _ | OAdd _ _ | OTcAppend _ _ _ _ => true
+  | OEmClone _ | OSel _ _ | OEmCtor _ _ true _ => true
   | _ => false
   end.
 
@@ -392,7 +393,8 @@ Theorem copies_independent h o c i k q :
 Proof.
   intros W S Ho Hc. intros h1 c'.
   assert (W1 : wf h1) by (apply wf_step; auto).
-  assert (S1 : Sep h1). { apply Sep_step; auto. destruct o; simpl in *; auto; discriminate. }
+  assert (S1 : Sep h1).
+  { apply Sep_step; auto. destruct o; simpl in *; auto; try discriminate. destruct copy; auto. }
   split.
   - apply (noninterference_member h1 c i k q W1 S1). unfold c'. lia.
   - apply (noninterference_member h1 c' i k q W1 S1). unfold c'. lia.
